@@ -94,6 +94,20 @@ CHECKS = {
             'monotonicity in window/psi/max_step/penalty, window=1 == ED, distance-matrix symmetry, both engines, ndim 1-2.',
             'Relations only; a defect that preserves all relations is invisible here (C01/C02 cover values).',
             'DESIGN.md §3 C10'),
+    'C11': ('property-based testing (Hypothesis) of the n-D routines against the univariate reference DP with vector point '
+            'distances; C04/C05/C06 predicates reused; d=1 differential against the univariate routines',
+            'Generated (length x d) series, d in 1..4, all settings, containers (2-D arrays, list of 2-D arrays, 3-D array, '
+            'lists of lists of lists); distance, pruning, upper bound, cost matrix, path and distance matrix of both '
+            'engines checked against the reference; for d=1 results must equal the univariate routines.',
+            'Trusts vlib/ref.py; findings F11a/F11b (n-D instances of F04a/F05b) exclude their regions.',
+            'DESIGN.md §3 C11'),
+    'C12': ('property-based testing (Hypothesis) of one DBA step and the loop: defining equation under unique optimal paths '
+            '(reference DP with exact tie counting), otherwise invariants that hold for every choice of optimal paths',
+            'Generated collections / masks / initial averages / windows / penalties for Python dba, dba(use_c), '
+            'dtw_cc.dba(_ndim) and dba_loop: mean of aligned points (unique paths), range, fixed point, independence of '
+            'unselected series (bitwise), monotone fit w.r.t. the reference DTW, step bound, c untouched.',
+            'Trusts vlib/ref.py incl. the tie counting; default inner distance, no psi/max_step.',
+            'DESIGN.md §3 C12'),
     'C17': ('property-based testing (Hypothesis) + exhaustive enumeration of a small sub-space against an independent '
             'alignment DP and brute-force alignment enumeration',
             'Generated sequences/scoring schemes/traceback orders plus the complete sub-space {A,B}^(<=4) x {A,B}^(<=4) x '
